@@ -45,12 +45,32 @@ def rotations_2d():
 
 
 # ------------------------------------------------------------------------------------ rods
+def radius_profile(taper, n_elems):
+    """Radius profiles relative to the thickest element: False uniform, True monotone taper from the base,
+    'reverse' thickest at the tip, 'spindle' thickest in the middle with the FIRST element of average
+    thickness (so that per-element marker counts sum to n_elems x the first element's count, e.g. 8 + 12 + 4),
+    'spindle-rev' its mirror image."""
+    if taper is False:
+        return np.ones(n_elems)
+    if taper is True:
+        return np.linspace(1.0, 0.35, n_elems)
+    if taper == "reverse":
+        return np.linspace(0.35, 1.0, n_elems)
+    if taper in ("spindle", "spindle-rev"):
+        prof = {2: [0.5, 1.0], 3: [2 / 3, 1.0, 1 / 3], 5: [0.75, 1.0, 1.0, 0.5, 0.5]}.get(n_elems)
+        if prof is None:
+            prof = list(0.4 + 0.6 * np.sin(np.pi * (np.arange(n_elems) + 0.5) / n_elems))
+        prof = np.array(prof, dtype=float)
+        return prof[::-1].copy() if taper == "spindle-rev" else prof
+    raise KeyError(taper)
+
+
 def make_rod(n_elems, taper, bent, rot=None, planar=False, seed=0, deform=True):
     """Straight rod; with deform=True it is bent / rotated / twisted right away, otherwise call
     ``deform_rod`` later (e.g. after a forcing grid has been constructed on the straight rod)."""
     import elastica as ea
 
-    base_radius = 0.05 * (np.linspace(1.0, 0.35, n_elems) if taper else np.ones(n_elems))
+    base_radius = 0.05 * radius_profile(taper, n_elems)
     rod = ea.CosseratRod.straight_rod(
         n_elements=n_elems, start=np.array([0.3, 0.4, 0.0 if planar else 0.5]), direction=np.array([1.0, 0.0, 0.0]), normal=np.array([0.0, 1.0, 0.0]),
         base_length=0.6, base_radius=base_radius, density=1e3, youngs_modulus=1e6, shear_modulus=1e6 / 1.5,
